@@ -177,7 +177,23 @@ impl<'tcx> Cx<'tcx> {
             ty::FnDef(d, _) => J::Arr(vec![s("fndef"), s(self.path(*d))]),
             ty::Dynamic(..) => J::Arr(vec![s("dyn"), s(self.ty_s(t))]),
             ty::Closure(d, _) => J::Arr(vec![s("closure"), s(self.path(*d))]),
-            ty::Alias(..) => J::Arr(vec![s("alias"), s(self.ty_s(t))]),
+            ty::Alias(a) => {
+                let mut trait_p = J::Null;
+                let mut item = J::Null;
+                let mut args = vec![];
+                if let ty::AliasTyKind::Projection { def_id } = a.kind {
+                    trait_p = s(self.path(self.tcx.parent(def_id)));
+                    item = s(self.tcx.item_name(def_id).to_string());
+                    for g in a.args.iter() {
+                        if let Some(t2) = g.as_type() {
+                            args.push(self.ty_j(t2, depth + 1));
+                        } else if let Some(c) = g.as_const() {
+                            args.push(J::Arr(vec![s("const"), s(full!(format!("{}", c)))]));
+                        }
+                    }
+                }
+                J::Arr(vec![s("alias"), s(self.ty_s(t)), trait_p, item, J::Arr(args)])
+            }
             ty::Foreign(d) => J::Arr(vec![s("foreign"), s(self.path(*d))]),
             _ => J::Arr(vec![s("other"), s(self.ty_s(t))]),
         }
@@ -725,8 +741,14 @@ fn impl_fact<'tcx>(cx: &Cx<'tcx>, did: DefId) -> J {
         preds.push(s(full!(format!("{}", p))));
     }
     let mut items = vec![];
+    let mut assoc_tys = vec![];
     for it in tcx.associated_items(did).in_definition_order() {
         items.push(J::Arr(vec![s(it.name().to_string()), s(cx.path(it.def_id))]));
+        if it.is_type() {
+            let aty = tcx.type_of(it.def_id).instantiate_identity().skip_norm_wip();
+            let own: Vec<J> = tcx.generics_of(it.def_id).own_params.iter().map(|p| s(p.name.to_string())).collect();
+            assoc_tys.push(J::Arr(vec![s(it.name().to_string()), cx.ty_j(aty, 0), J::Arr(own)]));
+        }
     }
     let generics = tcx.generics_of(did);
     let params: Vec<J> = generics.own_params.iter().map(|p| s(p.name.to_string())).collect();
@@ -748,6 +770,7 @@ fn impl_fact<'tcx>(cx: &Cx<'tcx>, did: DefId) -> J {
         ("params", J::Arr(params)),
         ("preds", J::Arr(preds)),
         ("items", J::Arr(items)),
+        ("assoc_tys", J::Arr(assoc_tys)),
     ])
 }
 
@@ -775,7 +798,11 @@ fn trait_fact<'tcx>(cx: &Cx<'tcx>, did: DefId) -> J {
         let has_default = it.defaultness(tcx).has_value();
         items.push(J::Arr(vec![s(it.name().to_string()), s(cx.path(it.def_id)), J::Bool(has_default)]));
     }
-    J::Obj(vec![("id", s(cx.path(did))), ("items", J::Arr(items))])
+    let mut supers = vec![];
+    for (c, _) in tcx.explicit_super_predicates_of(did).skip_binder().iter() {
+        supers.push(s(full!(format!("{}", c))));
+    }
+    J::Obj(vec![("id", s(cx.path(did))), ("items", J::Arr(items)), ("supers", J::Arr(supers))])
 }
 
 fn dump<'tcx>(tcx: TyCtxt<'tcx>, out_dir: &str) {
